@@ -59,27 +59,92 @@ Definition state_current_at (tm : bool) (v : variant) (b : backend) (ttl X n c :
   quiet X c post = true ->
   snd (rs_run tm v b ttl (pre ++ AuthOK n c X :: post)) X = Some (n, c).
 
-(* ---- the service's own read-modify-write sequences at storage-call granularity (one step = GetState / SetState /
-        DeleteState); used for the race-window candidates ---- *)
+(* a tunnel-typed authenticated handshake on (n, c): the real ServerAuthHandler called ConnectClient for it as well
+   (pinned = true; refuted in Proofs/ClientState.v); with fixes/C08-tunnel-handshake-keeps-runtime-state.diff it does not *)
+Definition tunnel_handshake_effect (pinned : bool) (rs : rstate) (x n c : N) : rstate :=
+  if pinned then upd rs x (Some (n, c)) else rs.
+
+(* ---- the service's own read-modify-write sequences at storage-call granularity (one step = one call of the shared
+        storage on the state key).  The stored value is the JSON of the state INCLUDING LastSeen, so every write produces a
+        value different from all earlier ones: modelled by a version number taken from a global counter.
+        cas = false: the two-call code (GetState ; SetState / DeleteState).
+        cas = true : the code with fixes/C08-atomic-client-runtime-state.diff:
+          EnsureClientOnline      up to 3 x [Get ; CompareAndSwap(read value -> touched value)], absent -> SetNX(rebuilt state)
+          DisconnectClientIfMatch up to 3 x [Get ; CompareAndSwap(read value -> tombstone)] while the value read still matches
+          ConnectClient           Get ; Set   (unchanged: a login overwrites unconditionally)
+        tombstone = (0, 0, 0): reads as "absent", but the key exists (SetNX fails on it). ---- *)
+Definition rval := (N * N * N)%type.                 (* node, conn, version *)
+Record rshared := { rmap : N -> option rval; rnext : N }.
+Definition rsh_empty : rshared := {| rmap := fun _ => None; rnext := 1 |}.
+Definition tomb : rval := (0, 0, 0).
+Definition rval_eqb (a b : rval) : bool :=
+  let '(n, c, v) := a in let '(n', c', v') := b in (n =? n') && (c =? c') && (v =? v').
+Definition is_tomb (a : rval) : bool := rval_eqb a tomb.
+Definition live (o : option rval) : option rval := match o with Some a => if is_tomb a then None else Some a | None => None end.
+Definition rloc (sh : rshared) (x : N) : option (N * N) := match live (rmap sh x) with Some (n, c, _) => Some (n, c) | None => None end.
+Definition rwrite (sh : rshared) (x n c : N) : rshared :=
+  {| rmap := upd (rmap sh) x (Some (n, c, rnext sh)); rnext := rnext sh + 1 |}.
+Definition rput (sh : rshared) (x : N) (v : option rval) : rshared := {| rmap := upd (rmap sh) x v; rnext := rnext sh |}.
+Definition holds_val (sh : rshared) (x : N) (a : rval) : bool :=
+  match rmap sh x with Some b => rval_eqb a b | None => false end.
+
 Inductive rprog :=
-| RConnect (x n c : N) | RConnect2 (x n c : N)                 (* Get (old state, for the counters) ; Set *)
-| REnsure (x n c : N) | REnsureSet (x : N) (loc : N * N)       (* Get ; Set (the value READ when present, else (n, c)) *)
-| RDisc (x n c : N) | RDiscDel (x : N)                         (* Get ; Delete if it matched *)
-| RLookup (x : N) | RLookupDone (r : option (N * N))
+| RConnect (x n c : N) | RConnect2 (x n c : N)
+| REnsure (x n c : N) (i : nat)                   (* about to Get (attempt i) *)
+| REnsureSet (x : N) (n c : N)                    (* cas = false: Set the touched value / the rebuilt state *)
+| REnsureCas (x n c : N) (a : rval) (i : nat)     (* cas = true: CompareAndSwap(a -> touched a) *)
+| REnsureNX (x n c : N)                           (* cas = true: SetNX(rebuilt state) *)
+| RDisc (x n c : N) (i : nat)
+| RDiscDel (x : N)                                (* cas = false: DeleteState *)
+| RDiscCas (x n c : N) (a : rval) (i : nat)       (* cas = true: CompareAndSwap(a -> tombstone) *)
 | RDone.
 
-Definition rstep (lo : rprog) (sh : rstate) : rprog * rstate :=
+Definition retries : nat := 3.
+
+Definition rstep (cas : bool) (lo : rprog) (sh : rshared) : rprog * rshared :=
   match lo with
   | RConnect x n c => (RConnect2 x n c, sh)
-  | RConnect2 x n c => (RDone, upd sh x (Some (n, c)))
-  | REnsure x n c => (REnsureSet x (match sh x with Some l => l | None => (n, c) end), sh)
-  | REnsureSet x l => (RDone, upd sh x (Some l))
-  | RDisc x n c => (if loc_eqb (sh x) n c then RDiscDel x else RDone, sh)
-  | RDiscDel x => (RDone, upd sh x None)
-  | RLookup x => (RLookupDone (sh x), sh)
-  | RLookupDone r => (RLookupDone r, sh)
+  | RConnect2 x n c => (RDone, rwrite sh x n c)
+  | REnsure x n c i =>
+      (match live (rmap sh x) with
+       | Some (n0, c0, v0) => if cas then REnsureCas x n c (n0, c0, v0) i else REnsureSet x n0 c0
+       | None => if cas then REnsureNX x n c else REnsureSet x n c
+       end, sh)
+  | REnsureSet x n c => (RDone, rwrite sh x n c)
+  | REnsureCas x n c a i =>
+      if holds_val sh x a then (RDone, rwrite sh x (fst (fst a)) (snd (fst a)))
+      else (if Nat.ltb (S i) retries then REnsure x n c (S i) else RDone, sh)
+  | REnsureNX x n c => (RDone, match rmap sh x with None => rwrite sh x n c | Some _ => sh end)
+  | RDisc x n c i =>
+      (match live (rmap sh x) with
+       | Some (n0, c0, v0) => if (n0 =? n) && (c0 =? c) then (if cas then RDiscCas x n c (n0, c0, v0) i else RDiscDel x) else RDone
+       | None => RDone
+       end, sh)
+  | RDiscDel x => (RDone, rput sh x None)
+  | RDiscCas x n c a i =>
+      if holds_val sh x a then (RDone, rput sh x (Some tomb))
+      else (if Nat.ltb (S i) retries then RDisc x n c (S i) else RDone, sh)
   | RDone => (RDone, sh)
   end.
 
-Definition rrun (s : Threads.st rstate rprog) (sched : list nat) : Threads.st rstate rprog := Threads.run rstate rprog rstep s sched.
-Definition rs_old : rstate := upd rs_empty 7 (Some (1, 10)).
+Definition rrun (cas : bool) (s : Threads.st rshared rprog) (sched : list nat) : Threads.st rshared rprog :=
+  Threads.run rshared rprog (rstep cas) s sched.
+Definition rs_old : rshared := rwrite rsh_empty 7 1 10.
+
+(* ---- "X's login (B, b) survives everything else" for the repaired service (cas = true) ---- *)
+Definition rsafe (X B b : N) (lo : rprog) : Prop :=
+  match lo with
+  | RConnect x n c | RConnect2 x n c => x = X -> (n = B /\ c = b)
+  | RDisc x n c _ => x = X -> ~ (n = B /\ c = b)
+  | RDiscCas x n c a _ => x = X -> (~ (n = B /\ c = b)) /\ fst (fst a) = n /\ snd (fst a) = c
+  | REnsureSet _ _ _ | RDiscDel _ => False                       (* states of the two-call code only *)
+  | _ => True
+  end.
+Definition rest (X B b : N) (sh : rshared) : Prop := exists v, rmap sh X = Some (B, b, v).
+Definition rinv (X B b : N) (i0 : nat) (s : Threads.st rshared rprog) : Prop :=
+  Forall (rsafe X B b) (snd s)
+  /\ match nth_error (snd s) i0 with
+     | Some (RConnect x n c) | Some (RConnect2 x n c) => x = X /\ n = B /\ c = b
+     | Some RDone => rest X B b (fst s)
+     | _ => False
+     end.
